@@ -1722,7 +1722,9 @@ impl MachineState {
                 Err(self.open_past_eos_error(stream, caller, arity))
             }
             EOFAction::EOFCode => {
-                let end_of_stream = if stream.options().stream_type() == StreamType::Binary {
+                let end_of_stream = if stream.options().stream_type() == StreamType::Binary
+                    || matches!(caller, atom!("get_code") | atom!("peek_code"))
+                {
                     fixnum_as_cell!(Fixnum::build_with(-1))
                 } else {
                     atom_as_cell!(atom!("end_of_file"))
